@@ -167,7 +167,9 @@ def _extract_flags(
     for attr in attrs:
         value = attr.serialize(omit_key=True)
 
-        if value not in allowed_flags:
+        # NOTE: Only a bare word can be a flag. `key=required` is a keyword argument
+        #       whose value is the variable `required`, not the flag `required`.
+        if attr.key or value not in allowed_flags:
             remaining_attrs.append(attr)
             continue
 
